@@ -139,11 +139,13 @@ def r1_two_directions(run):
     ok = len(loops) == 1 and unparse(loops[0].iter) == "self.db[sid].split(' ')"
     inner = [s for s in ast.walk(loops[0]) if isinstance(s, ast.Delete)] \
         if loops else []
-    ok = ok and len(inner) == 1 and \
-        unparse(inner[0].targets[0]) == "self.db[nid.text]"
-    nid = [s for s in ast.walk(rl.node) if isinstance(s, ast.Assign) and
-           unparse(s.targets[0]) == "nid"]
-    ok = ok and len(nid) == 1 and unparse(nid[0].value) == "decode(val)"
+    if ok and len(inner) == 1:
+        dn = lcfg.node_of_stmt(inner[0])
+        lv = unparse(loops[0].target)
+        ok = dn is not None and lcfg.itext(inner[0].targets[0], dn.id) == \
+            "self.db[decode(%s).text]" % lv
+    else:
+        ok = False
     outer = [s for s in walk_no_nested(rl.node) if isinstance(s, ast.Delete) and
              unparse(s.targets[0]) == "self.db[sid]"]
     run.check(ok and len(outer) == 1, "R1", rl.qual + "::both-directions",
@@ -369,22 +371,45 @@ def r4_persistent_stability(run):
               "transient identifiers are never returned as the persistent one",
               "a transient identifier can be returned by match_local_id",
               mf.loc())
-    n = 0
-    for r in mcfg.by_kind("return"):
-        if unparse(r.ast.value) != "nid":
-            continue
-        n += 1
-        gs = facts(mcfg, r.id)
-        sp_ok = Q("snq == sp_name_qualifier", True) in gs or \
-            {Q("snq", False), Q("sp_name_qualifier", False)} <= gs
-        nq_ok = Q("nq == name_qualifier", True) in gs or \
-            {Q("nq", False), Q("name_qualifier", False)} <= gs
-        run.check(sp_ok and nq_ok, "R4",
-                  "%s::return-nid@%d" % (mf.qual, n),
-                  "returned only when both qualifiers match (or both absent)",
-                  "identifier returned under %s: another SP's or domain's "
-                  "identifier could be reused" % sorted(gs), mf.loc(r.ast))
-    run.floor("R4", "match returns", n, 4)
+    # however the four cases are spelled (nested ifs, `or` of two conjunctions,
+    # a helper): a stored identifier is returned only if each qualifier equals
+    # the requested one or both are unset - no path to `return nid` when a
+    # qualifier mismatches
+    rets = [r.id for r in mcfg.by_kind("return") if unparse(r.ast.value) == "nid"]
+    run.floor("R4", "match returns", len(rets), 1)
+    srcn = [t.id for t in mcfg.by_kind("foriter")] or [mcfg.entry]
+    cases = [
+        ("sp-qualifier-differs", {"snq": "T", "snq == sp_name_qualifier": "F"}),
+        ("sp-qualifier-stored-absent-but-requested",
+         {"snq": "F", "sp_name_qualifier": "T",
+          "snq == sp_name_qualifier": "F"}),
+        ("sp-qualifier-stored-but-none-requested",
+         {"snq": "T", "sp_name_qualifier": "F",
+          "snq == sp_name_qualifier": "F"}),
+        ("name-qualifier-differs", {"nq": "T", "nq == name_qualifier": "F"}),
+        ("name-qualifier-stored-absent-but-requested",
+         {"nq": "F", "name_qualifier": "T", "nq == name_qualifier": "F"}),
+        ("name-qualifier-stored-but-none-requested",
+         {"nq": "T", "name_qualifier": "F", "nq == name_qualifier": "F"}),
+    ]
+    for cname, env in cases:
+        wit = mcfg.flag_search(srcn[0], {}, lambda n, vd: n in rets, assume=env)
+        run.check(wit is None, "R4", "%s::%s" % (mf.qual, cname),
+                  "no identifier is returned in this mismatch case",
+                  "an identifier is returned although %s: another SP's or "
+                  "domain's identifier could be reused" % cname, mf.loc(),
+                  witness=mcfg.describe_path(wit) if wit else None)
+    # and the matching cases are reachable
+    for cname, env in (
+            ("both-equal", {"snq": "T", "snq == sp_name_qualifier": "T",
+                            "nq": "T", "nq == name_qualifier": "T"}),
+            ("both-unset", {"snq": "F", "sp_name_qualifier": "F",
+                            "nq": "F", "name_qualifier": "F"})):
+        wit = mcfg.flag_search(srcn[0], {}, lambda n, vd: n in rets, assume=env)
+        run.check(wit is not None, "R4", "%s::%s" % (mf.qual, cname),
+                  "a matching identifier is returned",
+                  "no identifier is returned when the qualifiers are %s" %
+                  cname, mf.loc(), nontrivial=False)
     run.check("self.db[userid].split(' ')" in src and "decode(val)" in src, "R4",
               mf.qual + "::scope", "searches only that user's identifiers",
               "match_local_id searches %s" % [unparse(l.iter) for l in
